@@ -1,12 +1,15 @@
 """Run the repository's pinned suite (BASELINE.json cmd) on a tree and compare with the stable pass list.
-usage: baseline.py [repo_dir]   exit 0 iff every stable_pass test passed."""
+usage: baseline.py [repo_dir]   exit 0 iff every stable_pass test passed.
+BASELINE_NETNS=1 runs the suite in a private network namespace (the integration tests bind a fixed port; needed when several
+copies are tested on one machine at the same time)."""
 import json, os, subprocess, sys, tempfile
 import xml.etree.ElementTree as ET
 repo = sys.argv[1] if len(sys.argv) > 1 else '/repo'
 b = json.load(open('/root/.vp/BASELINE.json'))
 fd, out = tempfile.mkstemp(suffix='.xml'); os.close(fd)
 env = dict(os.environ); env.pop('DEEP_VERIF_HOOKS', None)
-cmd = ['/venv/bin/python', '-m', 'pytest', '-ra', '-q', '-p', 'no:cacheprovider', '--timeout=900',
+netns = os.environ.get('BASELINE_NETNS') == '1'
+cmd = (['unshare', '-rn', 'sh', '-c', 'ip link set lo up; exec "$@"', 'sh'] if netns else []) + ['/venv/bin/python', '-m', 'pytest', '-ra', '-q', '-p', 'no:cacheprovider', '--timeout=900',
        '--continue-on-collection-errors', '--junitxml=' + out]
 p = subprocess.run(cmd, cwd=repo, env=env, stdout=subprocess.PIPE, stderr=subprocess.STDOUT, text=True)
 passed = set()
